@@ -30,6 +30,8 @@ For the same reason "ctxCount = 0 at closeRet" (DESIGN §5) is false as an uncon
 (`C08_close_waits_ctx_witness`); `C08_close_waits` states what the two counters are exactly.
 -/
 import Teleport.Lemmas.GracefulC
+import Teleport.Lemmas.SrcFlow
+import Teleport.Gen.Transitions
 namespace Teleport
 namespace C08
 open Graceful
@@ -323,6 +325,103 @@ example : ∃ p, PReach PSt.init p ∧ p.pc = .joined ∧ p.ss.length = 2 ∧ p.
   have r18 := r17.step ⟨.sess 1 .xRet, rfl⟩
   have r19 := r18.step ⟨.join, rfl⟩
   exact ⟨_, r19, by decide⟩
+
+/-! ## tie A — the closer as it is in the source NOW (`Gen/Transitions`)
+
+The closer of `Model/Graceful` is one step per statement of `closeLocked` between two gate points.
+`srcfacts` regenerates the ordered flow of `closeLocked` (helpers such as `graceCtxWait` inlined) and
+the callers of the two wait groups; the theorem compares the flow with the order in which `step`
+enables the closer's events, and the callers with the threads of the model that count up and down. -/
+
+section TieA
+open SrcFlow
+
+def xEvents : List Graceful.Ev := [.xHubdel, .xCtxWait, .xCallWait, .xStClosed, .xSock, .xRet]
+
+/-- the one closer event the model enables in `s`. -/
+def xNext (s : St) : Option (Graceful.Ev × St) :=
+  match xEvents.filterMap fun e => (step s e).map fun t => (e, t) with
+  | [x] => some x
+  | _ => none
+
+def xTrace : Nat → St → List (Graceful.Ev × St)
+  | 0, _ => []
+  | n + 1, s =>
+    match xNext s with
+    | some (e, t) => (e, t) :: xTrace n t
+    | none => []
+
+/-- Go constant of the status the closer's store leaves. -/
+def closedName : Graceful.Status → String
+  | .closed => "statusActiveClosed" | .closing => "statusActiveClosing" | .ok => "statusOk"
+  | .pclosing => "statusPassiveClosing" | .pclosed => "statusPassiveClosed"
+
+/-- the source statements of a closer step (`xCtxWait` = `notifyClosed` and the context wait). -/
+def xKeys : Graceful.Ev × St → List String
+  | (.xHubdel, _) => ["call:sessHub.delete"]
+  | (.xCtxWait, _) => ["call:notifyClosed", "wg:ctx.Wait"]
+  | (.xCallWait, _) => ["wg:call.Wait"]
+  | (.xStClosed, t) => ["store:" ++ closedName t.status]
+  | (.xSock, _) => ["call:socket.Close"]
+  | (.xRet, _) => ["stage:postDisconnect"]
+  | _ => ["?"]
+
+/-- the closer of an idle established session, after `xStart`. -/
+def modelCloser : List String := (((step St.init .xStart).map (xTrace 12)).getD []).flatMap xKeys
+
+def closeKeys : List String := keys (mainFlow Gen.flow_session_closeLocked)
+def discKeys : List String := keys (mainFlow Gen.flow_session_readDisconnected)
+
+/-- (function, wait group operation) of every wait-group call of the package. -/
+def wgSites : List (String × String) :=
+  (Gen.lifecycle_sites.filter fun r => r.2.1 == "wg").map fun r => (r.1, r.2.2.1)
+
+/-- **Both waits of the close path come before the ActiveClosed store and the socket close (tie A).**
+    `closeLocked` as it is now runs, after its compare-and-swap: hub delete, `notifyClosed`,
+    `graceCtxWaitGroup.Wait()` (through `graceCtxWait`), `graceCallCmdWaitGroup.Wait()`, store ActiveClosed,
+    `socket.Close`, `postDisconnect` — exactly the order in which `Graceful.step` enables `xHubdel`,
+    `xCtxWait`, `xCallWait`, `xStClosed`, `xSock`, `xRet` — every one of them unconditional; so both
+    waits precede the store of ActiveClosed and the closing of the socket (what `C08_close_waits`
+    and `C08_reply_before_socket_close` rest on), and in the model the two wait steps are enabled
+    only at counter zero. `readDisconnected` waits for the handler contexts before it closes the
+    socket. The wait groups are counted up and down where the model's threads do it (a site inside
+    an unexported helper counts for the watched functions that reach it): context group `Add` in
+    `startReadAndHandle` (`rAdd`) and in `Push` through `getContext` (`pushStart`), `Done` through
+    `putContext` on the same two paths (`hFin`); call group `Add` in `AsyncCall` (`cIssue`), `Done` in
+    `callCmd.done` / `cancel` (`hReplyDone`, `cRefuse`, `cWrite` failure, `rDCancel`); waited for only
+    on the close path (both groups) and on the disconnect path (contexts). Removing a wait, moving it behind the store or the socket close, or counting
+    somewhere else changes a regenerated fact and this theorem no longer checks. -/
+theorem C08_close_waits_sites :
+    Gen.transitions_missing = [] ∧
+    closeKeys.tail = modelCloser ∧ modelCloser.length = 7 ∧
+    closeKeys.head? = some "cas:statusActiveClosing<-statusOk,statusPreparing" ∧
+    before "wg:ctx.Wait" "store:statusActiveClosed" closeKeys = true ∧
+    before "wg:ctx.Wait" "call:socket.Close" closeKeys = true ∧
+    before "wg:call.Wait" "store:statusActiveClosed" closeKeys = true ∧
+    before "wg:call.Wait" "call:socket.Close" closeKeys = true ∧
+    onlyAfter "wg:ctx.Wait" "call:socket.Close" closeKeys = true ∧
+    onlyAfter "wg:call.Wait" "call:socket.Close" closeKeys = true ∧
+    onlyAfter "wg:call.Wait" "store:statusActiveClosed" closeKeys = true ∧
+    ((mainFlow Gen.flow_session_closeLocked).filter fun e => e.kind == "wg").map (fun e => (e.name, e.guards)) =
+      [("ctx.Wait", []), ("call.Wait", [])] ∧
+    onlyAfter "wg:ctx.Wait" "call:socket.Close" discKeys = true ∧
+    -- the model's waits block until the counter is zero
+    (((step St.init .xStart).bind (step · .xHubdel)).map fun s => (step { s with ctx := 1 } .xCtxWait).isNone) = some true ∧
+    ((((step St.init .xStart).bind (step · .xHubdel)).bind (step · .xCtxWait)).map fun s =>
+      (step { s with calls := 1 } .xCallWait).isNone) = some true ∧
+    sameSet wgSites
+      [("session.startReadAndHandle", "ctx.Add"), ("session.Push", "ctx.Add"),
+       ("session.startReadAndHandle", "ctx.Done"), ("session.Push", "ctx.Done"),
+       ("session.closeLocked", "ctx.Wait"), ("session.readDisconnected", "ctx.Wait"),
+       ("session.AsyncCall", "call.Add"), ("callCmd.done", "call.Done"), ("callCmd.cancel", "call.Done"),
+       ("session.closeLocked", "call.Wait")] = true := by
+  decide
+
+/-- non-vacuity: the model's closer order, spelled out. -/
+example : modelCloser = ["call:sessHub.delete", "call:notifyClosed", "wg:ctx.Wait", "wg:call.Wait",
+    "store:statusActiveClosed", "call:socket.Close", "stage:postDisconnect"] := by decide
+
+end TieA
 
 end C08
 end Teleport
